@@ -110,15 +110,41 @@ def _tokenizer(pkg, cname):
 # ------------------------------------------------------------------ R1 / R2
 
 def _is_len_desc_sorted(v):
-    """sorted(X, key=len, reverse=True) -> X ;  'other' for a sorted(..) in another order ;  None when not a sorted call"""
+    """sorted(X, key=len, reverse=True) in any of its spellings (key=lambda s: len(s) with reverse=True, key=lambda s: -len(s), a tuple key
+    whose first component is one of these) -> X ;  'other' for a sorted(..) understood to be in another order (no key, the length
+    ascending) ;  'unknown' for a key / reverse flag this rule does not read ;  None when not a sorted call"""
     v = simp(v)
     if v[0] == "call" and v[1] == ("global", "sorted") and len(v[2]) == 1:
         kw = dict(v[3])
-        key, rev = kw.get("key"), kw.get("reverse")
-        if key == ("global", "len") and rev == ("const", True):
-            return v[2][0]
-        if key is not None and key[0] == "unknown":
+        if set(kw) - {"key", "reverse"}:
             return "unknown"
+        key, rev = kw.get("key"), kw.get("reverse", ("const", False))
+        if rev[0] != "const" or not isinstance(rev[1], bool):
+            return "unknown"
+
+        def by_len(k):
+            """+1: the key is the length; -1: minus the length; 0: understood, neither; None: not read"""
+            if k is None:
+                return 0                    # the natural (alphabetical) order
+            if k == ("global", "len"):
+                return 1
+            if k[0] == "lambda" and len(k[1]) == 1:
+                b = k[2]
+                if b[0] == "tuple" and b[1]:
+                    b = b[1][0]             # ties broken by further components
+                LEN = ("call", ("global", "len"), (k[1][0],), ())
+                if b == LEN:
+                    return 1
+                if b in (("unop", "USub", LEN), ("binop", "Mult", ("const", -1), LEN), ("binop", "Mult", LEN, ("const", -1)), ("binop", "Sub", ("const", 0), LEN)):
+                    return -1
+                if b == k[1][0] or (b[0] == "attr" and b[1] == k[1][0]) or (b[0] == "meth" and b[1] == k[1][0] and b[2] in ("lower", "upper")):
+                    return 0                # the symbol itself / its case-folded text: alphabetical
+            return None
+        d = by_len(key)
+        if d is None:
+            return "unknown"
+        if (d == 1 and rev[1]) or (d == -1 and not rev[1]):
+            return v[2][0]
         return "other"
     return None
 
